@@ -47,6 +47,7 @@ fn run_job(job: &Sexp) -> String {
         "pretty" => front::job_pretty(job),
         "front" => front::job_front(job),
         "pexpr" => front::job_pexpr(job),
+        "pblock" => front::job_pblock(job),
         "consts" => consts::job_consts(job),
         "opprog" => opprog::job_opprog(job),
         "sortnet" => sortnet::job_sortnet(job),
